@@ -648,7 +648,7 @@ func (env *Env) evalCall(e *ECall) TV {
 		x := env.eval(e.Args[0])
 		k := env.eval(e.Args[1])
 		if mt, ok := x.T.Underlying().(*types.Map); ok && x.V.K == VInt {
-			return TV{V: vBool(mkSelect(ex.mapDom(env.st, mt, x.V.T), k.V.T)), T: tBool}
+			return TV{V: vBool(mkSelect(ex.mapDom(env.st, mt, x.V.T), scalarTerm(k.V))), T: tBool}
 		}
 		efail("dom of non-map")
 	case "arrayof":
@@ -728,12 +728,15 @@ func (env *Env) evalCall(e *ECall) TV {
 		return TV{V: vInt(ex.bytesContent(env.st, x.V)), T: types.Typ[types.String]}
 	case "sent":
 		x := env.eval(e.Args[0])
-		return TV{V: vInt(mkSelect(ex.get(env.st, "CH.sent", SArr(SInt, SInt)), x.V.T)), T: untypedInt}
+		if _, ok := x.T.Underlying().(*types.Chan); !ok {
+			efail("sent() of a non-channel")
+		}
+		return TV{V: vInt(mkSelect(ex.get(env.st, chSentKey(x.T), SArr(SInt, SInt)), x.V.T)), T: untypedInt}
 	case "lastsent":
 		x := env.eval(e.Args[0])
 		if ct, ok := x.T.Underlying().(*types.Chan); ok {
 			et := ct.Elem()
-			if len(leavesOf(et)) > 1 || !isIntType(et) && !isBoolType(et) {
+			{
 				ls := leavesOf(et)
 				ts := make([]string, len(ls))
 				for i, l := range ls {
@@ -746,7 +749,8 @@ func (env *Env) evalCall(e *ECall) TV {
 				return TV{V: v, T: et}
 			}
 		}
-		return TV{V: vInt(mkSelect(ex.get(env.st, "CH.last", SArr(SInt, SInt)), x.V.T)), T: untypedInt}
+		efail("lastsent of a non-channel")
+		return TV{}
 	case "cast":
 		// cast(x, T): the dynamic value of interface x viewed as T (meaningful when typeis(x, T))
 		x := env.eval(e.Args[0])
@@ -998,9 +1002,12 @@ func (env *Env) modLocs(e Expr) []ModLoc {
 	case *ECall:
 		if e.Fn == "sent" {
 			x := env.eval(e.Args[0])
-			ex.get(env.st, "CH.sent", SArr(SInt, SInt))
-			ex.get(env.st, "CH.last", SArr(SInt, SInt))
-			out := []ModLoc{{Key: "CH.sent", Sort: SArr(SInt, SInt), Idx: []string{x.V.T}}, {Key: "CH.last", Sort: SArr(SInt, SInt), Idx: []string{x.V.T}}}
+			if _, ok := x.T.Underlying().(*types.Chan); !ok {
+				efail("sent() of a non-channel")
+			}
+			sk := chSentKey(x.T)
+			ex.get(env.st, sk, SArr(SInt, SInt))
+			out := []ModLoc{{Key: sk, Sort: SArr(SInt, SInt), Idx: []string{x.V.T}}}
 			if ct, ok := x.T.Underlying().(*types.Chan); ok {
 				for _, l := range leavesOf(ct.Elem()) {
 					key := "CH.last." + typeKey(ct.Elem()) + "." + l.Path
